@@ -1,7 +1,7 @@
 ---------------------------- MODULE Trace_Limits ----------------------------
 EXTENDS Limits, TraceBase
 VARIABLE l
-TReset == /\ st' = "init" /\ eofK' = 0 /\ nres' = 0 /\ nmem' = 0 /\ out' = [ret |-> 0] /\ hist' = <<>>
+TReset == /\ st' = "init" /\ eofK' = 0 /\ slackK' = 0 /\ nres' = 0 /\ nmem' = 0 /\ out' = [ret |-> 0] /\ hist' = <<>>
 Good(ev) ==
     LET a == ev.args  o == ev.obs IN
        \/ ev.op = "Reset" /\ TReset
@@ -15,7 +15,7 @@ Good(ev) ==
              \/ ev.op = "RecSize"    /\ RecSize(a.o1, a.o2)
              \/ ev.op = "Rank"       /\ Rank(a.r)
              \/ ev.op = "SetName"    /\ SetName(a.kind, a.len)
-             \/ ev.op = "Probe"      /\ Probe /\ a.room = (eofK + 64 <= CeilK)
+             \/ ev.op = "Probe"      /\ Probe /\ a.room = (eofK + slackK + 400 <= CeilK)
           /\ ObsOK(out', o)
 TraceInit == Init /\ l = 1 /\ TLCSet(1, 1)
 TraceNext ==
